@@ -74,3 +74,10 @@ def run(ctx):
     from ..engines import forestrules as FE
     FE.e13_reverse_switch_read_live(ctx)
     ctx.floor("E13", 2)
+    # the shifts of a reverse rule are, position by position, those of its own children (round 10)
+    from ..engines import sizecheck as SC1
+    SC1.s4_forest_keys(ctx)
+    for fam1 in SC1.strategy_families(ctx.P):
+        st1 = SC1.run_family(ctx, fam1, 3, 2)
+        SC1.run_derived(ctx, fam1, 3, st1)
+    ctx.floor("S4", 8)
